@@ -52,6 +52,9 @@ func w2History(r *prng.R, matcher int, special int) []w2call {
 		wr("text", 3000)
 		h = append(h, w2call{Op: 'F'})
 		wr("random", 70000)
+	case 4: // one Write: incompressible head (>= 64 KiB), then far beyond the 2 MiB chunk limit of zeros
+		h = append(h, w2call{Op: 'W', Fam: "randzeros", N: 2<<20 + 400000 + r.Intn(1000), Seed: r.U64()})
+		h = append(h, w2call{Op: 'F'})
 	case 3: // compressible / incompressible alternation with flushes in between
 		for i := 0; i < 4; i++ {
 			wr([]string{"text", "random", "lowent", "random"}[i], r.Pick(2000, 70000, 9000))
@@ -121,6 +124,11 @@ func checkC08(c *ev.Ctx) {
 			special = i%25 + 0
 			if special == 0 {
 				special = 3
+				if i%100 == 0 {
+					special = 4
+					matcher = 0
+					cfg.Matcher = lzma.HashTable4
+				}
 			}
 			if special == 1 {
 				matcher = 0
